@@ -1,4 +1,5 @@
 import CffiVerif.Spec.CConstExpr
+import CffiVerif.Spec.CConstExprNoWrap
 
 /-!
 Specification of how gcc 12 (C front end, x86-64) gives values and an underlying type to
@@ -85,8 +86,9 @@ def isLeaf : CExpr → Bool
   | _ => false
 
 /-- The C09 premise for one explicit enumerator value: a bare literal / character constant (of
-any type), or an expression whose operands and intermediate results are all signed. -/
-def exprOk (cenv : Env) (e : CExpr) : Bool := isLeaf e || allSigned cenv e
+any type), an expression whose operands and intermediate results are all signed, or any
+expression without unsigned wrap-around. -/
+def exprOk (cenv : Env) (e : CExpr) : Bool := isLeaf e || allSigned cenv e || noWrap cenv e
 
 /-- `exprOk` for every explicit value, each in the scope in which gcc evaluates it. -/
 def itemsOk (cenv : Env) (next : Option (CType × Int)) : List CItem → Bool
